@@ -764,7 +764,8 @@ mod os {
             }
             drop(exec_fail_pipe.1);
             let mut error_buf = [0u8; 4];
-            let read_cnt = exec_fail_pipe.0.read(&mut error_buf)?;
+            let status_pipe = &mut exec_fail_pipe.0;
+            let read_cnt = posix::retry_intr(|| status_pipe.read(&mut error_buf))?;
             if read_cnt == 0 {
                 Ok(())
             } else if read_cnt == 4 {
